@@ -1,5 +1,22 @@
-(* C02 — property theorems (bootstrap stage; see DESIGN.md section 6). *)
-From Verif Require Import Inflate.
-Theorem C02_spec_inflater_runs : status (inflate [] [3;0]) = Done /\ out (inflate [] [3;0]) = [].
+(* C02 — property theorems.  Model: RModel/Reader.v (specification-level reader over the reference inflater).
+   Only statements, each closed by `exact`, followed by Print Assumptions. *)
+From Verif Require Import Reader ReaderProofs InflateMono.
+Open Scope N_scope.
+
+(* Every stream the reference inflater accepts as complete (a superset of what compress/flate
+   accepts), followed by any bytes, delivered in any chunks, with any terminal behaviour of the
+   source: the reader hands out exactly the reference output and then io.EOF. *)
+Theorem C02_valid_stream_decoded : forall dict s suffix chunks term,
+  status (inflate dict s) = Done -> concat chunks = s ++ suffix ->
+  rbytes (rrun dict chunks term) = out (inflate dict s) /\ rerror (rrun dict chunks term) = REOF.
+Proof. exact (valid_stream_decoded inflate_mono inflate_never_fuel). Qed.
+Print Assumptions C02_valid_stream_decoded.
+
+(* whatever sizes of buffer the caller passes to Read, the pieces concatenate to the same bytes *)
+Theorem C02_read_sizes_irrelevant : forall sizes l, concat (split_reads l sizes) = l.
+Proof. exact split_reads_concat. Qed.
+Print Assumptions C02_read_sizes_irrelevant.
+
+(* non-vacuity: a fixed-Huffman stream for "amd" is Done *)
+Example C02_example : status (inflate [] [75;204;77;1;0]) = Done /\ out (inflate [] [75;204;77;1;0]) = [97;109;100].
 Proof. vm_compute. split; reflexivity. Qed.
-Print Assumptions C02_spec_inflater_runs.
